@@ -453,8 +453,38 @@ func mapsClone(ex *Exec, _ *frame, fn *ssa.Function, a []Value) (Value, bool) {
 	return out, true
 }
 
+// errorsIs models errors.Is without reflection: identity of comparable error
+// values along the Unwrap chain, honouring Is(error) bool methods.
 func errorsIs(ex *Exec, caller *frame, fn *ssa.Function, a []Value) (Value, bool) {
-	return nil, false // interpret the real body
+	err, target := a[0].(iface), a[1].(iface)
+	if err.t == nil || target.t == nil {
+		return err.t == nil && target.t == nil, true
+	}
+	for depth := 0; depth < 32; depth++ {
+		if types.Identical(err.t, target.t) && types.Comparable(err.t) {
+			if ex.condBool(ex.equals(err.t, err.v, target.v)) {
+				return true, true
+			}
+		}
+		if m := ex.lookupMethodByName(err.t, "Is"); m != nil && m.Signature.Params().Len() == 1 {
+			if ex.condBool(ex.callFunction(caller, m, []Value{err.v, target})) {
+				return true, true
+			}
+		}
+		m := ex.lookupMethodByName(err.t, "Unwrap")
+		if m == nil || m.Signature.Results().Len() != 1 {
+			return false, true
+		}
+		if _, isSlice := m.Signature.Results().At(0).Type().Underlying().(*types.Slice); isSlice {
+			panic(unsupported("errors.Is over Unwrap() []error"))
+		}
+		next := ex.callFunction(caller, m, []Value{err.v}).(iface)
+		if next.t == nil {
+			return false, true
+		}
+		err = next
+	}
+	panic(unsupported("errors.Is: unwrap chain too long"))
 }
 
 // ---------- fmt ----------
